@@ -135,8 +135,11 @@ fn gen_step(rng: &mut Rng, max_side: u32, all_filters: &[Filt]) -> Step {
         if op >= 1 && op <= 4 { /* zero-sized alpha ops are fine */ }
     }
     let use_alpha = rng.chance(1, 2);
-    let sp = gen_place(rng, sw, sh, sk.is_crop(), true);
-    let dp = gen_place(rng, dw, dh, dk.is_crop(), true);
+    // half of the placements are exact-fit (allocation ends at the last pixel of the view: the sanitizer's red
+    // zone is flush against it), half have margins / spare rows on every side (a stray write lands in a sentinel)
+    let exact = rng.chance(1, 2);
+    let sp = gen_place(rng, sw, sh, sk.is_crop(), exact);
+    let dp = gen_place(rng, dw, dh, dk.is_crop(), exact);
     if op == 0 && false {
         op = 0;
     }
@@ -255,6 +258,24 @@ fn exec_step<P: Px>(r: &mut Resizer, s: &Step, k: usize, stats: &mut Stats, viol
             stats.count("passes", 1);
         }
     }
+    // "never reads or writes outside the buffers it was given": the surroundings of the destination view and
+    // the whole source backing store must be untouched (a stray write inside the parent allocation is invisible
+    // to a sanitizer)
+    if let Some(i) = db.first_outside_change(0xBBBB) {
+        let pw = s.dp.pw.max(1) as usize;
+        viols.push(
+            Viol::new("write_outside_destination", format!("{}: backing pixel {} (x={}, y={}) outside the {}x{} destination view at ({},{}) changed", what, i, i % pw, i / pw, c.dw, c.dh, s.dp.left, s.dp.top))
+                .sig(json!({"pt": P::NAME, "dst": format!("{:?}", s.dk)})),
+        );
+    }
+    {
+        let mut check = Backing::<P>::new(s.sp, c.sw, c.sh, 0xAAAA);
+        check.put(&src);
+        if P::bits_of(&check.buf) != P::bits_of(&sb.buf) {
+            viols.push(Viol::new("source_modified", format!("{}: the source backing store changed", what)).sig(json!({"pt": P::NAME})));
+        }
+    }
+    stats.count("sentinel_checks", 1);
     match res {
         Ok(Ok(())) => stats.count("returned_ok", 1),
         Ok(Err(e)) => {
